@@ -84,6 +84,10 @@ pub trait Target {
     fn enc(&mut self, di: usize, ty: &str, v: &Value) -> REnc;
     /// restart after a crash
     fn restart(&mut self) -> Result<(), String>;
+    /// targets that cannot build values at run time (C++) list the values compiled into them
+    fn baked_values(&self, _di: usize, _ty: &str) -> Option<Vec<Value>> {
+        None
+    }
 }
 
 // ------------------------------------------------------------------------------------- Python
@@ -325,6 +329,7 @@ pub fn check_dec(be: Backend, r: &Ref, ty: &str, b: &[u8], single_fault: bool, g
                         }
                     }
                     match (r.encode(&cls, &rv), reser) {
+                        _ if be == Backend::Cxx => {} // views do not re-serialize
                         (Ok(e), Ok(bytes)) => {
                             if &e.bytes != bytes {
                                 res.fails.push(rf("serialize", "re-encoding-differs", format!("canonical {} got {}", hex(&e.bytes), hex(bytes))));
@@ -378,7 +383,8 @@ pub fn check_enc(be: Backend, r: &Ref, ty: &str, v: &Value, got: &REnc, back: Op
             }
             res.nontrivial = e.bytes.len() >= 2;
             res.outcome = "ok".into();
-            // read back by the same backend
+            // read back by the same backend (meaningful only when the octets are the reference's)
+            let back = if bytes == &e.bytes { back } else { None };
             match back {
                 Some(RDec::Ok { value, class, .. }) => {
                     // a parent value whose payload happens to parse as a child comes back as that child: not comparable.
@@ -504,6 +510,49 @@ pub fn run_remote<T: Target>(prop: &str, be: Backend, seed: u64, thorough: bool,
                                 }
                                 Ok(())
                             };
+                            let baked = if kind == "enc" { tcell.borrow().baked_values(rd.idx, &ty) } else { None };
+                            if let Some(list) = baked {
+                                // fixed list of compiled-in values: no generation, no shrinking
+                                let mut first: Option<Value> = None;
+                                for v in list {
+                                    let mut acc = acell.borrow_mut();
+                                    let mut t = tcell.borrow_mut();
+                                    let got = t.enc(rd.idx, &ty, &v);
+                                    let back = match &got {
+                                        REnc::Ok { bytes, .. } => Some(t.dec(rd.idx, &ty, &root, bytes)),
+                                        REnc::Crash(_) => {
+                                            let _ = t.restart();
+                                            None
+                                        }
+                                        _ => None,
+                                    };
+                                    let res = check_enc(be, &r, &ty, &v, &got, back.as_ref());
+                                    acc.eval("enc:baked-value", &res.outcome);
+                                    let ij = json!({"json": v});
+                                    if res.nontrivial {
+                                        acc.nontrivial(fnv(&[tag.as_bytes(), ij.to_string().as_bytes()]), || json!({"description": rd.text, "type": ty, "input": ij, "class": "baked-value", "outcome": res.outcome}));
+                                    }
+                                    let mut all: BTreeSet<String> = tags.clone();
+                                    all.extend(dtags.iter().cloned());
+                                    all.extend(res.events.iter().map(|e| format!("event:{e}")));
+                                    for f in &res.fails {
+                                        match kf.matches(&prop, &f.op, &f.outcome, &all) {
+                                            Some(k) => acc.known(&k.id),
+                                            None => {
+                                                if first.is_none() {
+                                                    first = Some(json!({"property": prop, "seed": seed, "backend": format!("{be:?}"), "pdl": rd.text, "model": rd.desc, "type": ty, "op": f.op, "input": ij, "class": "baked-value",
+                                                        "observed": f.outcome, "detail": f.detail, "tags": all.iter().cloned().collect::<Vec<_>>(), "signature": format!("{prop}|{}|{}", f.op, f.outcome)}));
+                                                }
+                                            }
+                                        }
+                                    }
+                                }
+                                drop(eval);
+                                if let Some(rec) = first {
+                                    acc.p.violations.push(rec);
+                                }
+                                continue;
+                            }
                             let failure = run_streams(seed, &tag, cases, 400, |st| eval(st, false).map_err(|e| e.0));
                             if let Some(f) = failure {
                                 let rec = match eval(&f.stream, true) {
